@@ -158,6 +158,10 @@ func (e *enc) run() {
 			e.assume("(> " + e.get(g) + " 0)")
 		case "Iface":
 			e.assume("(not (= (i-tag " + e.get(g) + ") 0))")
+			if sf, ok := e.v.ct.Specs["safeErr"]; ok && e.v.errNewGlobals[g] {
+				// made by errors.New during package initialisation and never assigned again
+				e.assume(e.specApp(sf, []Val{{T: e.get(g), S: "Iface"}}, nil).T)
+			}
 		case "RType":
 			e.assume("(not (= " + e.get(g) + " rt.nil))")
 		}
@@ -915,7 +919,7 @@ func (e *enc) instr(in ssa.Instruction) {
 		es := e.te.SortOf(el)
 		mem := e.memName(es)
 		r := e.allocRef("mk." + x.Name())
-		e.set(mem, sto(e.get(mem), "((as const (Array Int "+es+")) "+e.te.Zero(el)+")", r))
+		e.set(mem, sto(e.get(mem), e.constArr(es, e.te.Zero(el)), r))
 		e.bind(x, Val{T: "(mk-slice " + r + " 0 " + ln.T + " " + cp.T + ")", S: "Slice", GT: x.Type()})
 	case *ssa.MakeMap:
 		m := x.Type().Underlying().(*types.Map)
@@ -1014,7 +1018,7 @@ func (e *enc) alloc(x *ssa.Alloc) {
 		es := e.te.SortOf(a.Elem())
 		mem := e.memName(es)
 		r := e.allocRef("arr." + x.Name())
-		e.set(mem, sto(e.get(mem), "((as const (Array Int "+es+")) "+e.te.Zero(a.Elem())+")", r))
+		e.set(mem, sto(e.get(mem), e.constArr(es, e.te.Zero(a.Elem())), r))
 		e.bind(x, Val{T: r, S: "Int", GT: x.Type()})
 		return
 	}
@@ -1788,4 +1792,22 @@ func (e *enc) pickNamed(name string, vs []ssa.Value, at *ssa.BasicBlock, strict 
 		return Val{}, false
 	}
 	return e.vals[best], true
+}
+
+// constArr: the array that holds `zero` everywhere. cvc5 accepts (as const ..) only for value arguments; zeros that are
+// built from declared constants (niliface, rv.zeroValue, rt.nil) get a declared array with a defining axiom instead,
+// so that both solvers can read the query.
+func (e *enc) constArr(es Sort, zero string) string {
+	switch zero {
+	case "niliface", "rv.zeroValue", "rt.nil", "any.nil":
+		name := "czero." + symSafe(string(es))
+		if !e.declared["czero:"+name] {
+			e.declared["czero:"+name] = true
+			e.decls = append(e.decls,
+				fmt.Sprintf("(declare-const %s (Array Int %s))", name, es),
+				fmt.Sprintf("(assert (forall ((i Int)) (! (= (select %s i) %s) :pattern ((select %s i)))))", name, zero, name))
+		}
+		return name
+	}
+	return "((as const (Array Int " + string(es) + ")) " + zero + ")"
 }
